@@ -200,6 +200,12 @@ pub struct GeneralB {
     pub num_viviendas: i32,
     pub impulsion: f32,
     pub n50: Option<f32>,
+    /// on-site production declared in the general data: kinds of the electricity rows
+    /// (0 Ninguno, 1 Fotovoltaica insitu, 2 Eólica insitu, 3 Cogeneración) and of the thermal rows (0 Ninguno, 1 Solar Térmica ACS)
+    #[serde(default)]
+    pub onsite_ele: Vec<u8>,
+    #[serde(default)]
+    pub onsite_acs: Vec<u8>,
 }
 
 #[derive(Clone, Debug, Serialize, Deserialize)]
@@ -268,8 +274,10 @@ fn win_b(i: usize) -> BoxedStrategy<WinB> {
         opt(4, (dec2(0.0, 0.5), dec2(0.0, 0.5), dec2(0.3, 2.0), dec2(0.2, 1.5), prop_oneof![Just(90.0f32), dec2(30.0, 120.0)]).boxed()),
         opt(6, (dec2(0.0, 0.5), dec2(0.0, 0.5), dec2(0.2, 1.0), dec2(0.5, 2.0)).boxed()),
         opt(6, (dec2(0.0, 0.5), dec2(0.0, 0.5), dec2(0.2, 1.0), dec2(0.5, 2.0)).boxed()),
-        any::<bool>(),
+        // one window in twelve has a pair of equal fins (the usual symmetric design)
+        (any::<bool>(), 0u8..12),
     )
+        .prop_map(move |(gap, (fx, fy, fw, fh), setback, overhang, left_fin, right_fin, (coeff, sym))| (gap, (fx, fy, fw, fh), setback, overhang, if sym == 0 { left_fin.or(Some((0.1, 0.0, 0.5, 1.0))) } else { left_fin }, if sym == 0 { left_fin.or(Some((0.1, 0.0, 0.5, 1.0))) } else { right_fin }, coeff))
         .prop_map(move |(gap, (fx, fy, fw, fh), setback, overhang, left_fin, right_fin, coeff)| WinB {
             name: format!("V{}", i),
             gap,
@@ -300,7 +308,7 @@ fn space_b(fi: usize, si: usize) -> BoxedStrategy<SpaceB> {
     outline()
         .prop_flat_map(move |out| {
             let n = out.len();
-            let edge_walls = proptest::collection::vec((wall_kind(true), any::<u16>(), opt(2, dec2(0.1, 0.9)), proptest::collection::vec(win_b(0), 0..=2), prop_oneof![6 => Just(true), 1 => Just(false)]), n);
+            let edge_walls = proptest::collection::vec((wall_kind(true), any::<u16>(), opt(2, prop_oneof![8 => dec2(0.1, 0.9), 1 => Just(0.0f32)].boxed()), proptest::collection::vec(win_b(0), 0..=2), prop_oneof![6 => Just(true), 1 => Just(false)]), n);
             (
                 Just(out),
                 edge_walls,
@@ -455,7 +463,7 @@ pub fn bld() -> BoxedStrategy<Bld> {
         .prop_map(|v| v.into_iter().enumerate().map(|(i, (conduct, abs, width))| FrameB { name: format!("Marco {}", i + 1), conduct, abs, width }).collect::<Vec<_>>());
     let gaps = proptest::collection::vec((any::<u16>(), any::<u16>(), dec2(0.0, 100.0), prop_oneof![Just(3.0f32), Just(9.0), Just(27.0), Just(50.0)], opt(1, dec2(0.0, 50.0)), opt(1, dec2(0.02, 1.0))), 1..=3)
         .prop_map(|v| v.into_iter().enumerate().map(|(i, (glass, frame, percentage, inf_coef, delta_u, trans_july))| GapB { name: format!("Hueco {}", i + 1), glass, frame, percentage, inf_coef, delta_u, trans_july }).collect::<Vec<_>>());
-    let days = proptest::collection::vec(prop_oneof![1 => dec2(0.0, 1.0).prop_map(|v| vec![v]), 3 => proptest::collection::vec(prop_oneof![Just(0.0f32), dec2(0.01, 1.0)], 24)], 1..=4)
+    let days = proptest::collection::vec(prop_oneof![1 => dec2(0.0, 1.0).prop_map(|v| vec![v]), 3 => proptest::collection::vec(prop_oneof![3 => Just(0.0f32), 6 => dec2(0.01, 1.0), 2 => dec3(0.001, 1.0)], 24)], 1..=4)
         .prop_map(|v| v.into_iter().enumerate().map(|(i, values)| DayB { name: format!("HD_{}", i + 1), values }).collect::<Vec<_>>());
     let weeks = proptest::collection::vec(prop_oneof![1 => proptest::collection::vec(any::<u16>(), 1), 3 => proptest::collection::vec(any::<u16>(), 7), 1 => (any::<u16>(), any::<u16>()).prop_map(|(a, b)| vec![a, a, a, a, a, b, b])], 1..=3)
         .prop_map(|v| v.into_iter().enumerate().map(|(i, days)| WeekB { name: format!("HS_{}", i + 1), days }).collect::<Vec<_>>());
@@ -464,7 +472,7 @@ pub fn bld() -> BoxedStrategy<Bld> {
         (Just(d), proptest::collection::vec(any::<u16>(), n))
     }), 1..=3)
         .prop_map(|v| v.into_iter().enumerate().map(|(i, (d, w))| YearB { name: format!("HA_{}", i + 1), periods: d.into_iter().zip(w).map(|((m, dd), w)| (m, dd, w)).collect() }).collect::<Vec<_>>());
-    let sconds = proptest::collection::vec((dec2(0.0, 40.0), dec2(0.0, 200.0), dec2(0.0, 150.0), dec2(0.0, 30.0), dec2(0.0, 30.0), any::<u16>(), any::<u16>(), any::<u16>()), 1..=2)
+    let sconds = proptest::collection::vec((prop_oneof![1 => Just(0.0f32), 4 => dec2(0.0, 40.0)], dec2(0.0, 200.0), dec2(0.0, 150.0), dec2(0.0, 30.0), dec2(0.0, 30.0), any::<u16>(), any::<u16>(), any::<u16>()), 1..=2)
         .prop_map(|v| v.into_iter().enumerate().map(|(i, (area_per_person, sens, lat, equip, light, people_sch, equip_sch, light_sch))| SpaceCondB { name: format!("Uso {}", i + 1), area_per_person, sens, lat, equip, light, people_sch, equip_sch, light_sch }).collect::<Vec<_>>());
     let syconds = proptest::collection::vec((any::<bool>(), any::<u16>(), any::<u16>()), 1..=2)
         .prop_map(|v| v.into_iter().enumerate().map(|(i, (conditioned, cool_sch, heat_sch))| SysCondB { name: format!("Consignas {}", i + 1), conditioned, cool_sch, heat_sch }).collect::<Vec<_>>());
@@ -484,6 +492,27 @@ pub fn bld() -> BoxedStrategy<Bld> {
                     (r(x as f64 + a * u[0] + b * v[0]), r(y as f64 + a * u[1] + b * v[1]), r(z as f64 + a * u[2] + b * v[2]))
                 };
                 ShadeB::Verts { name: String::new(), v: vec![p(0.0, 0.0), p(w as f64, 0.0), p(w as f64, h as f64), p(0.0, h as f64)] }
+            }),
+            // a planar polygon with 5-12 corners (vertex keys V10, V11, V12 ...) in a random pose
+            // (corners are written with six decimals, as HULC does: the converter takes the plane from the first three
+            // corners, so corners snapped to millimetres would put the far side of a large polygon more than a
+            // centimetre off that plane without any fault of the conversion)
+            (dec2(-30.0, 30.0), dec2(-30.0, 30.0), dec2(0.0, 10.0), dec2(1.0, 5.0), 5usize..=12, dec2(0.0, 359.0), prop_oneof![Just(90.0f32), Just(0.0f32), dec2(20.0, 160.0)]).prop_map(|(x, y, z, r, n, az, tilt)| {
+                let (sa, ca) = ((az as f64).to_radians().sin_cos());
+                let (st, ct) = ((tilt as f64).to_radians().sin_cos());
+                let u = [ca, sa, 0.0];
+                let v = [-sa * ct, ca * ct, st];
+                let rr = |q: f64| ((q * 1.0e6).round() / 1.0e6) as f32;
+                let verts = (0..n)
+                    .map(|k| {
+                        // regular outline: no three corners are collinear and the leading three span the plane well
+                        let ang = 2.0 * std::f64::consts::PI * k as f64 / n as f64;
+                        let rad = r as f64;
+                        let (a, b) = (rad * ang.cos(), rad * ang.sin());
+                        (rr(x as f64 + a * u[0] + b * v[0]), rr(y as f64 + a * u[1] + b * v[1]), rr(z as f64 + a * u[2] + b * v[2]))
+                    })
+                    .collect();
+                ShadeB::Verts { name: String::new(), v: verts }
             }),
         ],
         0..=3,
@@ -511,8 +540,8 @@ pub fn bld() -> BoxedStrategy<Bld> {
         });
     // project names: usual, empty (an unnamed project) and the text the model uses as its own default
     let pname = prop_oneof![4 => Just("Proyecto generado"), 2 => Just(""), 1 => Just("Nombre del proyecto"), 1 => Just("Reforma 2ª fase & <anexo>")];
-    let general = (0u8..32, prop_oneof![Just("Unifamiliar"), Just("Bloque"), Just("UnaBloque"), Just("Terciario"), Just("Gran")], any::<bool>(), 1i32..20, dec2(0.0, 500.0), opt(2, dec2(0.5, 10.0)), pname)
-        .prop_map(|(zone, tipo, nuevo, num_viviendas, impulsion, n50, pname)| GeneralB { name: pname.to_string(), zone, tipo: tipo.to_string(), nuevo, num_viviendas, impulsion, n50 });
+    let general = (0u8..32, prop_oneof![Just("Unifamiliar"), Just("Bloque"), Just("UnaBloque"), Just("Terciario"), Just("Gran")], any::<bool>(), 1i32..20, dec2(0.0, 500.0), opt(2, dec2(0.5, 10.0)), pname, prop_oneof![3 => Just(vec![]), 2 => proptest::collection::vec(0u8..4, 1..=10)], prop_oneof![3 => Just(vec![]), 1 => proptest::collection::vec(0u8..2, 1..=10)])
+        .prop_map(|(zone, tipo, nuevo, num_viviendas, impulsion, n50, pname, onsite_ele, onsite_acs)| GeneralB { name: pname.to_string(), zone, tipo: tipo.to_string(), nuevo, num_viviendas, impulsion, n50, onsite_ele, onsite_acs });
     (
         (any::<u32>(), prop_oneof![2 => Just(0.0f32), 1 => Just(180.0f32), 3 => dec2(0.0, 359.99)], prop_oneof![2 => Just(0.0f32), 1 => dec2(0.1, 3.0)], prop_oneof![2 => Just(0.0f32), 1 => dec2(0.1, 5.0)], general),
         (mats, layers, glasses, frames, gaps),
@@ -1031,6 +1060,31 @@ pub fn print_ctehexml(b: &Bld, systems: &[String]) -> String {
             tag("ValorN50Medido", format!("{:.2}", v));
         }
         None => tag("ensayoPermeabilidad", "NO".into()),
+    }
+    // on-site production rows: 14 fields each (kind; name; 12 monthly values), as HULC writes them
+    let rows = |kinds: &[u8], names: &[&str]| -> String {
+        kinds
+            .iter()
+            .enumerate()
+            .map(|(i, k)| {
+                let kind = names[(*k as usize) % names.len()];
+                let label = if kind == "Ninguno" { "Ninguno".to_string() } else { format!("instalacion {}", i + 1) };
+                format!("{};{};{}", kind, label, (0..12).map(|m| format!("{:.1}", if kind == "Ninguno" { 0.0 } else { 100.0 + 10.0 * m as f32 })).collect::<Vec<_>>().join(";"))
+            })
+            .collect::<Vec<_>>()
+            .join(";")
+    };
+    if !g.onsite_ele.is_empty() {
+        tag("valMenELE", "SI".into());
+        tag("valoresMensualesELE", rows(&g.onsite_ele, &["Ninguno", "Fotovoltaica insitu", "Eólica insitu", "Cogeneración"]));
+    } else {
+        tag("valMenELE", "NO".into());
+    }
+    if !g.onsite_acs.is_empty() {
+        tag("valMenACS", "SI".into());
+        tag("valoresMensualesACS", rows(&g.onsite_acs, &["Ninguno", "Solar Térmica ACS"]));
+    } else {
+        tag("valMenACS", "NO".into());
     }
     s.push_str("    </DatosGenerales>\n    <EntradaGraficaLIDER><![CDATA[");
     s.push_str(&print_bdl(b));
